@@ -88,3 +88,27 @@ PROPS["C12"] = {
          "thorough": {"shards": 16, "checks": 1200000, "cap": 7200}},
     ],
 }
+
+PROPS["C11"] = {
+    "level": "exploration",
+    "rule": ("graphs: generated graph (1-6 targets over packages '',a,a/b,ab; aliases on 40% of edges; BUILD.json/BUILD.yaml split) with output spellings (x ./x sub/../x ../x ../../x /abs dir::d dir::d/ dir::d/e d/f docker::img ...), "
+             "deliberately shared output paths between random pairs, inputs incl. escaping spellings, plus one structural injection (undefined label, dangling alias, self-dependency, alias cycle, back edge with/without cycle possibly through an alias, "
+             "duplicate label in one file / across files / target-vs-alias, test or testonly dependency direct or through an alias); written to disk and run through LoadPackages->BuildNodeMapFromPackages->BuildGraph->CheckTargetConstraints; "
+             "accept/reject must equal the reference validator in both directions. pairs: exhaustive enumeration of two single-output targets over 3 packages x 23 spellings each x {independent, ordered, ordered through alias}. "
+             "Non-trivial = graph has an alias and a defect, or contains a near-miss (overlap that is legal because ordered, '..' output that stays inside the workspace, back edge without cycle); distinct by full case."),
+    "assumptions": [
+        "rejections the property does not list are kept out of the generator: test target without command, non-file bin_output, two overlapping outputs of one target",
+        "a file output nested below another target's *file* output path is not a listed overlap and is treated as valid",
+    ],
+    "exhaustive_parts": ["pairs"],
+    "exhaustive_scope": "part 'pairs' enumerates its stated two-target space completely; part 'graphs' is sampled",
+    "nt_floor": 0.1,
+    "parts": [
+        {"name": "graphs", "pkg": "c11", "test": "TestGraphs",
+         "quick": {"shards": 8, "checks": 12000, "cap": 900},
+         "thorough": {"shards": 16, "checks": 400000, "cap": 7200}},
+        {"name": "pairs", "pkg": "c11", "test": "TestEnumPairs", "kind": "enum",
+         "quick": {"shards": 8, "cap": 900},
+         "thorough": {"shards": 8, "cap": 900}},
+    ],
+}
